@@ -35,7 +35,9 @@ debug = 1
     if not os.path.exists(mp) or open(mp).read() != manifest:
         open(mp, "w").write(manifest)
     if not os.path.exists(os.path.join(d, "Cargo.lock")):
-        shutil.copy(os.path.join(repo, "Cargo.lock"), os.path.join(d, "Cargo.lock"))
+        for cand in (os.path.join(repo, "Cargo.lock"), "/repo/Cargo.lock"):
+            if os.path.exists(cand):
+                shutil.copy(cand, os.path.join(d, "Cargo.lock")); break
     return d
 
 def env(extra_flags=""):
@@ -104,7 +106,7 @@ def main(tier, seed, repo, replay_file):
 
     # ---------------- Miri
     d, _ = build("miri", repo)
-    miri_batches = [(4, "both", "light"), (3, "same", "light"), (6, "mixed", "light")]
+    miri_batches = [(4, "both", "light"), (3, "same", "light"), (6, "mixed", "light"), (4, "stagger", "light")]
     if thorough:
         miri_batches.append((3, "both", "full"))
     for bi, (thr, mode, light) in enumerate(miri_batches):
@@ -137,7 +139,7 @@ def main(tier, seed, repo, replay_file):
         inconclusive.append("ThreadSanitizer build failed (-Zbuild-std)")
     else:
         def one(i):
-            thr = [16, 8, 32, 2][i % 4]; mode = ["both", "same", "mixed"][i % 3]
+            thr = [16, 8, 32, 2][i % 4]; mode = ["both", "same", "mixed", "stagger", "stagger"][i % 5]
             e = dict(os.environ, TSAN_OPTIONS="halt_on_error=0 exitcode=66 report_signal_unsafe=0")
             r = subprocess.run([exe, str(thr), mode, str(seed * 100000 + i)], stdout=subprocess.PIPE, stderr=subprocess.PIPE, text=True, env=e)
             return i, thr, mode, r.returncode, r.stdout, r.stderr
@@ -161,7 +163,7 @@ def main(tier, seed, repo, replay_file):
         inconclusive.append("native build failed")
     else:
         def one_n(i):
-            thr = [16, 32, 8, 64][i % 4]; mode = ["both", "same", "mixed"][i % 3]
+            thr = [16, 32, 8, 64][i % 4]; mode = ["both", "same", "mixed", "stagger", "stagger"][i % 5]
             r = subprocess.run([exe, str(thr), mode, str(seed * 100000 + i)], stdout=subprocess.PIPE, stderr=subprocess.PIPE, text=True)
             return i, thr, mode, r.returncode, r.stdout, r.stderr
         with ThreadPoolExecutor(max_workers=8) as ex:
